@@ -270,7 +270,8 @@ func vpInv(e *vEnv, assert bool) bool {
 		m.req("C01,C02,C05,C07", "INV.13.decided", req != nil && vpHasAllTx(d) && vpCurrentViewCommits(d) >= d.M() && (!amev || d.preBlockProcessed))
 	}
 	if d.preBlockProcessed {
-		m.req("C01,C02,C05,C07", "INV.13.predecided", req != nil && amev && vpHasAllTx(d))
+		// the pre-block is processed once per HEIGHT: the flag survives view changes
+		m.req("C01,C02,C05,C07", "INV.13.predecided", amev)
 	}
 	// 14 timer
 	if !d.Context.WatchOnly() && !d.blockProcessed {
